@@ -69,9 +69,7 @@ theorem residue_irrelevant (app : App) : ∀ (fuel : Nat) (res : Residue) (conn 
       split
       · rfl
       · rfl
-      · rename_i status _
-        rw [ih { parsed := none, buf0 := first.headD 0 } ⟨rest, conn.eof⟩ (Or.inl rfl)]
-        rfl
+      · rfl
       · rename_i p hp
         have hnz := parse_ok_head first rest.flatten p hp
         simp only [hclear]
